@@ -29,8 +29,13 @@ if os.path.exists(extra):
     ex=json.load(open(extra))
     for c in ex.get('checks',[]): C[c['property_id']]=c
     m['engines']+=ex.get('engines',[])
+EXT=" The workload was widened in three later rounds (scale, content that looks like tape structure, other entry points, OS-level and database-level refusals, foreign-archive features, restarts, second writers ...): the complete rule as it runs is the `rule` field of the evidence file, the classes and why they were added are in DESIGN.md 11.2 and 11.5."
 for p in props:
-    if p in C: m['checks'].append(C[p])
+    if p in C:
+        if EXT not in C[p]['level_claimed']['text']: C[p]['level_claimed']['text']+=EXT
+        m['checks'].append(C[p])
+        continue
+    if False: pass
     else: m['not_applicable'].append(dict(property_id=p,reason="check not built yet (work in progress; planned monitor in DESIGN.md section 4)"))
 json.dump(m,open('/verif/MANIFEST.json','w'),indent=1)
 print('claimed',[c['property_id'] for c in m['checks']])
